@@ -328,7 +328,9 @@ func (s *BaseVisitor) EnterOC_Limit(c *parser.OC_LimitContext) {}
 
 func (s *BaseVisitor) EnterOC_SortItem(c *parser.OC_SortItemContext) {}
 
-func (s *BaseVisitor) EnterOC_Hint(c *parser.OC_HintContext) {}
+func (s *BaseVisitor) EnterOC_Hint(c *parser.OC_HintContext) {
+	s.newUnsupportedRuleError(c)
+}
 
 func (s *BaseVisitor) EnterOC_StartPoint(c *parser.OC_StartPointContext) {}
 
